@@ -29,6 +29,7 @@
 
 #include "manager.h"
 #include "data/chunk.h"
+#include "data/chunk_iterator.h"
 #include "data/chunk_handle.h"
 #include "data/chunk_list_node.h"
 #include "data/hash_chunk.h"
@@ -309,6 +310,51 @@ static std::string run_case(std::vector<std::string> t, unsigned serial) {
           }
           node.set_chunk(nullptr);
         }
+      } else if (k == "X") {
+        // X <idx> <w> <first> <last> <adv> <steps|-> <datahex|->: Chunk::preload, then the loop of
+        // PeerConnectionBase::down_chunk (w=1) / up_chunk (w=0) with the REAL ChunkIterator; the "stream"
+        // moves min(step_i, data.second) bytes per iteration, 0 when the schedule is exhausted
+        uint32_t idx = (uint32_t)std::stoull(op.at(1));
+        bool w = op.at(2) == "1";
+        uint32_t first = (uint32_t)std::stoull(op.at(3)), last = (uint32_t)std::stoull(op.at(4));
+        bool adv = op.at(5) == "1";
+        std::vector<uint32_t> steps;
+        if (op.at(6) != "-") { std::istringstream ss(op.at(6)); std::string x; while (std::getline(ss, x, ',')) steps.push_back((uint32_t)std::stoull(x)); }
+        std::string src = unhex(op.at(7));
+        int prot = MemoryChunk::prot_read | (w ? MemoryChunk::prot_write : 0);
+        Chunk* raw = nullptr;
+        bool err = false;
+        try { raw = c.fl->create_chunk_index(idx, prot); } catch (torrent::internal_error&) { err = true; }
+        if (err) r = "ERR:internal";
+        else if (raw == nullptr) r = "NULL";
+        else if (w && last > first && src.size() < (size_t)(last - first)) { delete raw; r = "BADCASE short data"; }
+        else {
+          std::unique_ptr<Chunk> ch(raw);
+          r = "pre=";
+          try { ch->preload(first, last - first, adv); r += "ok"; } catch (torrent::internal_error&) { r += "ERR:internal"; }
+          std::vector<std::string> wins;
+          std::string sent;
+          uint32_t total = 0;
+          bool xerr = false;
+          try {
+            Chunk::data_type data;
+            torrent::ChunkIterator itr(ch.get(), first, last);
+            size_t si = 0;
+            do {
+              data = itr.data();
+              wins.push_back(std::to_string(data.second));
+              uint32_t n = si < steps.size() ? std::min(steps[si], data.second) : 0;
+              si++;
+              if (w) memcpy(data.first, src.data() + total, n);
+              else sent.append(static_cast<char*>(data.first), n);
+              data.second = n;
+              total += n;
+            } while (data.second != 0 && itr.forward(data.second));
+          } catch (torrent::internal_error&) { xerr = true; }
+          if (xerr) r += " xfer=ERR:internal";
+          else r += " wins=" + commas(wins) + " xfer=" + std::to_string(total) + " out=" + hex(sent);
+          ch->sync(MemoryChunk::sync_sync);
+        }
       } else if (k == "R") {
         try {
           if (c.loader) c.dl.close(0); else c.fl->close();
@@ -437,6 +483,7 @@ static int worker_main() {
   while (std::getline(std::cin, line)) {
     auto t = split_ws(line);
     try {
+      if (t.size() == 1 && t[0] == "SELFTEST-HANG") for (volatile int spin = 0;; spin++) {}   // watchdog self-test
       if (t.size() < 2) std::cout << "BADCASE\n";
       else std::cout << run_case(t, serial++) << "\n";
     } catch (torrent::internal_error& e) { std::cout << "ERR:internal! " << e.what() << "\n";
